@@ -36,6 +36,38 @@ def classify(src, kinds):
 _F08A_KINDS = {"overlap-or-disorder", "text-mismatch", "uncovered-text", "logical-line-not-closed-by-newline"}
 
 
+def structure_violations(src, toks):
+    """line structure of the stream (the part of "nothing is lost" that the tiling cannot see): a NEWLINE closes a logical line that has
+    a token, never stands inside a bracket, and the end marker does not precede any character of the source"""
+    out = []
+    open_line = False
+    depth = 0
+    for t in toks:
+        name = t.type.name
+        if name in ("WS", "COMMENT", "NL", "INDENT", "DEDENT"):
+            continue
+        if name == "NEWLINE":
+            if depth > 0:
+                out.append(("newline-inside-bracket", f"NEWLINE at {t.start} with {depth} open bracket(s)"))
+            elif not open_line:
+                out.append(("newline-closes-nothing", f"NEWLINE at {t.start} after a line without tokens"))
+            open_line = False
+            continue
+        if name == "ENDMARKER":
+            n = src.count("\n")
+            end = (n + 1, 0) if (not src or src.endswith("\n")) else (n + 1, len(src) - (src.rfind("\n") + 1))
+            if tuple(t.start) < end:
+                out.append(("endmarker-before-end-of-text", f"ENDMARKER at {t.start}, the text ends at {end}"))
+            continue
+        open_line = True
+        if name == "OP":
+            if t.string[-1:] in "([{":
+                depth += 1
+            elif t.string in (")", "]", "}"):
+                depth = max(0, depth - 1)
+    return out[:4]
+
+
 def check_case(acc, src, origin):
     out = base.guarded(_tok, src)
     acc.count("inputs_" + origin)
@@ -54,6 +86,10 @@ def check_case(acc, src, origin):
         acc.nontrivial(base.h64(src))
     if acc.evals % 1499 == 1:
         acc.sample({"src": src[:120], "tokens": len(toks)})
+    sv = structure_violations(src, toks)
+    acc.count("line_structure_checks")
+    if sv:
+        acc.violation(sv[0][0], {"src": src, "origin": origin}, {"violations": [list(x) for x in sv]})
     mism, gaps = [], []
     v = tokcheck.tiling_violations(src, toks, mismatched_out=mism, gaps_out=gaps)
     if v:
